@@ -43,6 +43,11 @@ CLAIMED = {
    note="Not explored: interleavings - delivery is proved via the capacity precondition rather than by enumerating schedules; uniqueness of notification ids (uuid.NewV4) assumed; partition.insert/update/remove and the raft proposal path are assumed contracts here; batch error maps at dataset level (partitionsBatchRequest fan-in) not yet under contract.",
    tech="contract-based deductive verification with ghost counters for proposals/RPCs/notifications, SMT",
    ref="DESIGN.md §4 C11"),
+ "C12": dict(
+   text="Proof (unbounded over requests) of the boundary and poison clauses on 78 functions: every RPC handler of the DataManager, DatasetManager and Search services is verified for an ARBITRARY decoded request (no requires on ids, lengths, numbers, maps) - every panic site in it and every precondition of the storage method it calls is an obligation; the storage request paths below them likewise (single and batch writes, fan-out workers, Search/SearchPartitions, catalogue Create/Delete/List/Get). Poison clause: whatever a proposer hands to raft satisfies wfChange / wfDatasetRecord - 16-byte ids everywhere, vectors of the dataset's dimension, non-negative levels, dimension/partition count/replication factor >= 1, a defined metric, one partition record per partition - which is exactly what partition.process / createDataset need to apply without error (their side: 'returns nil on well-formed entries', shared with C04/C14). Memory clause: in the search path every make() sized by a non-constant is bounded by existing data (alloc#proportional, 65536*memcap), so k cannot size an allocation. Oversized batches are refused first.",
+   note="Assumed at handler entry (data-structure invariants, not re-established by a verified constructor): wfCatalogue/wfDatasetFull (newDataset is an assumed contract); protobuf decoding yields non-nil messages without nil elements; the Space enum table has exactly 3 values; peers answer with canonical UUID keys; proto Marshal/Unmarshal round-trips lengths. Panic-freedom INSIDE the index graph code (searchLevel, selectNeighbors*, pruneNeighbors, Insert/Remove link maintenance) and inside the raft host loop is NOT part of this check (owned by C01 / unclaimed) - the index is covered here only through its preconditions and allocation sizes. Not covered: wedging (deadlock), goroutine interleavings, NodesManager RPCs, a huge partition_count in Create (a policy limit, recorded in DESIGN as an observation).",
+   tech="contract-based deductive verification: no-panic and precondition push-back to the RPC boundary, proposal well-formedness hooks on proto.Marshal, allocation-size obligations, SMT",
+   ref="DESIGN.md §4 C12"),
  "C14": dict(
    text="Proof of the state-machine clauses (unbounded): createDataset/deleteDataset against the map view (exact outcomes, other ids untouched, undecodable entries change nothing); process applies a decodable entry of a known type with exactly one apply function; processSnapshot into ANY manager state leaves exactly the snapshot's ids (kept entries are the old objects); the shared zero group delivers an entry to the consumer it names exactly once; wiring typestate in Server.setup: RaftGroup.Start (which restores the snapshot and launches replay) only after every consumer has registered; NewSharedGroup/NewRaftGroup leave the group with the fields Start needs.",
    note="Not decided: 'every node lists it' as a statement about N processes (etcd/raft + C05 host obligations); updatePartitionNodes, newDataset, Allocator.watch/unwatch are assumed contracts; snapshot() is only as good as proto.Marshal (assumed); field-by-field equality of restored metadata is inherited from newDataset's assumed contract.",
